@@ -163,4 +163,6 @@ def main(tier):
     rep.attempt(c19.check_resume, rep, mod)
     rep.attempt(check_state_handled, rep, mod)
     rep.attempt(check_tmp_twins, rep, mod)
+    import c05
+    rep.attempt(c05.check_c_loads, rep)      # chunks are separate memory regions: nothing behind a chunk may be read (M-ENDDIST-C, M-COMPARE-BOUND)
     return rep.finish()
